@@ -507,6 +507,14 @@ def count_stats(messages: list[str]) -> tuple[int, int, int]:
     return len(errors), len(notes), len(error_files)
 
 
+def only_notes(messages: list[str], json_output: bool = False) -> bool:
+    """Is every message in the list a note (so that the messages don't make a run fail)?"""
+    if json_output:
+        # The severity is a field of each JSON line, count_stats() doesn't see it.
+        return all('"severity": "note"' in message for message in messages)
+    return count_stats(messages)[1] == len(messages)
+
+
 def split_words(msg: str) -> list[str]:
     """Split line of text into words (but not within quoted groups)."""
     next_word = ""
